@@ -27,6 +27,9 @@ CONSTANTS
   EnqChecksAlive = TRUE
   WaitSwallowsBadResult = TRUE
   AliveAsksServer = TRUE
+  IterExact = TRUE
+  OwnRunScn = FALSE
+  RestartKeepsRun = TRUE
 INVARIANT TypeOK
 INVARIANT Inv_C05_Stream
 INVARIANT Inv_C05_Closed
